@@ -501,6 +501,9 @@ class RequireMatcher(WrappingMatcher):
     def value_as(self, astype):
         return self.a.value_as(astype)
 
+    def spans(self):
+        return self.a.spans()
+
 
 class ConstantScoreWrapperMatcher(WrappingMatcher):
     def __init__(self, child, score=1.0):
